@@ -17,7 +17,7 @@ RULE = ("30 % of the imported cases continue as a sequence evaluate / truncate (
 ASSUMPTIONS = ["floating-point underflow of reach on very deep trees is outside the real-number theorem; generated trees have depth <= 8"]
 
 
-def build(cid, t, st, named=None, solve=None, seq=None):
+def build(cid, t, st, named=None, solve=None, seq=None, second=None):
     cb = CaseBuilder(cid, t, {"stats": st})
     if named is not None:
         s = cb.import_(named, fast=True)
@@ -41,6 +41,15 @@ def build(cid, t, st, named=None, solve=None, seq=None):
             nn = cb.named(cur)
             ii = cb.info(cur)
             pairs.append((nn, ii))
+    if second is not None:
+        # further profiles evaluated on the SAME Game value, narrow support first, broad support afterwards: whatever an
+        # evaluation leaves behind in the game must not leak into the next one
+        rng = second
+        for style in (["pure", "dirichlet"] if rng.random() < 0.6 else [rng.choice(["zeros", "dirichlet", "uniform"])]):
+            s2 = cb.import_(random_named(rng, t, style), fast=rng.random() < 0.5)
+            n2 = cb.named(s2)
+            i2 = cb.info(s2)
+            pairs.append((n2, i2))
     cb.meta["pairs"] = pairs
     return cb
 
@@ -68,6 +77,14 @@ def generate(rng, tier, n):
         cases.append(build(cid, t, st, named=random_named(rng, t, rng.choice(["pure", "dirichlet", "uniform"]))))
         cases[-1].meta["jackpot"] = True
         cid += 1
+    # a hidden, unevenly weighted deal and players who see nothing but their own moves: every infoset spans nodes of
+    # different counterfactual reach, and each player's later infosets lie below several nodes of the earlier ones
+    for _ in range(max(6, n // 12)):
+        from ..solvers import hidden_deal_tree
+        t, st = hidden_deal_tree(rng, outcomes=rng.choice([2, 3, 4]), depth=rng.choice([3, 4]), actions=2)
+        cases.append(build(cid, t, st, named=random_named(rng, t, rng.choice(["dirichlet", "dirichlet", "zeros", "uniform"])),
+                           seq=rng if rng.random() < 0.3 else None, second=rng))
+        cid += 1
     while len(cases) < n:
         t, st = gen_tree(rng, max_nodes=rng.choice([8, 20, 40, 70]), max_depth=rng.choice([3, 5, 7]),
                          p_share=rng.choice([0.5, 0.8]), max_actions=rng.choice([2, 3, 4]))
@@ -77,7 +94,7 @@ def generate(rng, tier, n):
                                                       rng.choice(["vanilla", "dcfr", "cfr_plus"]))))
             else:
                 cases.append(build(cid, t, st, named=random_named(rng, t, rng.choice(["pure", "zeros", "dirichlet", "tiny", "uniform"])),
-                                   seq=rng if rng.random() < 0.3 else None))
+                                   seq=rng if rng.random() < 0.3 else None, second=rng if rng.random() < 0.35 else None))
             cid += 1
             if len(cases) >= n:
                 break
